@@ -419,9 +419,12 @@ class World:
         fn.__qualname__ = name
         return fn
 
-    def callsite(self, req, inner, raising=(), proxy=False):
+    def callsite(self, req, inner, raising=(), proxy=False, decorated=False):
         """A 'coroutine function' that raises synchronously when called, for the chosen call indices.
-        proxy: its calls return a non-native Coroutine object wrapping the real coroutine."""
+        proxy: its calls return a non-native Coroutine object wrapping the real coroutine.
+        decorated: it poses as a functools.wraps-style decorator around a function with one more (keyword-only,
+        required) parameter that the decorator supplies itself - its *advertised* signature (`__wrapped__`) does not
+        accept the caller's arguments although every call succeeds."""
         w = self
 
         def fn(*a, **k):
@@ -434,6 +437,11 @@ class World:
 
         fn.__name__ = inner.__name__
         fn._is_coroutine = asyncio.coroutines._is_coroutine
+        if decorated:
+            async def declared(*a, injected_by_decorator, **k):      # never called
+                raise AssertionError
+            declared.__name__ = inner.__name__
+            fn.__wrapped__ = declared
         return fn
 
     def release(self, wid, value=None):
